@@ -24,7 +24,7 @@ func H_C11_tree_readonly() {
 		return // float-valued trees and full-width numeric keys add only solver time here (C01/C02/C16 cover them)
 	}
 	d := &Device{C: c}
-	snapI, _ := ygot.DeepCopy(d)
+	snapI := symSnapshot(d) // the engine's own deep copy, not ygot.DeepCopy (code under test)
 	schema := SchemaTree["Device"]
 	switch symChoose("api", 7) {
 	case 0:
@@ -54,10 +54,17 @@ func H_C11_tree_readonly() {
 			y := "y"
 			e.Oc = &V_C_Ol_Oc{Y: &y}
 		}
-		otherSnap, _ := ygot.DeepCopy(other)
+		otherSnap := symSnapshot(other)
 		ygot.MergeStructs(d, other)
 		ygot.MergeStructs(other, d)
 		symAssert(reflect.DeepEqual(other, otherSnap), "MergeStructs modified its other input")
+		if c.Ol != nil {
+			// checked without relying on DeepCopy (whose copy could itself alias the entries)
+			first := c.Ol.Get(c.Ol.Keys()[0])
+			symAssert(first != nil && first.Oc == nil, "MergeStructs wrote the other operand's data into an ordered-list entry of its input")
+			oe := other.C.Ol.Get(c.Ol.Keys()[0])
+			symAssert(oe != nil && oe.Val == nil, "MergeStructs wrote data into an ordered-list entry of its other input")
+		}
 	}
 	symReach("called")
 	symAssert(reflect.DeepEqual(d, snapI), "a read-only API modified the tree it was given")
